@@ -141,7 +141,9 @@ type fakeCF struct {
 
 func recName(n string) string { return n + ".z1.example" }
 
-func newFakeCF(init []pubRec, quoted bool) *fakeCF {
+func newFakeCF(init []pubRec, quoted bool) *fakeCF { return newFakeCFSized(init, quoted, false) }
+
+func newFakeCFSized(init []pubRec, quoted, bigPages bool) *fakeCF {
 	f := &fakeCF{}
 	// 45 records on 3 pages of 20; the abstract records sit on their page, fillers elsewhere
 	slots := make([]*fakeRec, 45)
@@ -157,7 +159,11 @@ func newFakeCF(init []pubRec, quoted bool) *fakeCF {
 	}
 	for i := range slots {
 		if slots[i] == nil {
-			slots[i] = &fakeRec{ID: fmt.Sprintf("fill-%02d", i), Name: fmt.Sprintf("fill%02d.z1.example", i), Value: `alpn="h2" ech="ZmlsbGVy"`, Prio: 1, Tgt: "."}
+			val := `alpn="h2" ech="ZmlsbGVy"`
+			if bigPages && i >= 20 && i < 40 { // a page of records with long values: the page is far larger than 64 KiB
+				val = `alpn="h2" ech="` + strings.Repeat("QUJD", 1200) + `"`
+			}
+			slots[i] = &fakeRec{ID: fmt.Sprintf("fill-%02d", i), Name: fmt.Sprintf("fill%02d.z1.example", i), Value: val, Prio: 1, Tgt: "."}
 		}
 	}
 	f.recs = slots
@@ -268,7 +274,7 @@ func replayPubCase(c *pubCase, idx int) (diff string) {
 			}
 		}
 	}()
-	f := newFakeCF(c.Init, idx%3 != 1) // every third zone stores unquoted values
+	f := newFakeCFSized(c.Init, idx%3 != 1, idx%5 == 2) // every third zone stores unquoted values; every fifth has a very large page
 	defer f.srv.Close()
 	f.softFail = (idx/3)%2 == 1
 	f.omitEmpty = idx%2 == 0
@@ -350,6 +356,35 @@ func replayPubCase(c *pubCase, idx int) (diff string) {
 		f.mu.Unlock()
 		if fmt.Sprint(patches) != fmt.Sprint(append([]string{}, call.Patches...)) {
 			return fmt.Sprintf("%s: PATCH requests: spec %v, code %v", where, call.Patches, patches)
+		}
+	}
+	// a call whose context has already ended: still one result per target, none of them a success, nothing written
+	if len(c.Calls) > 0 && len(c.Calls[0].Targets) > 0 {
+		var targets []publish.Target
+		for _, t := range c.Calls[0].Targets {
+			targets = append(targets, publish.Target{Zone: t.Zone + ".example", Name: recName(t.Name)})
+		}
+		f.mu.Lock()
+		f.fail, f.nList, f.nPatch, f.patches = pubFail{Kind: "none"}, 0, 0, nil
+		f.mu.Unlock()
+		ctx, cancel := context.WithCancel(context.Background())
+		cancel()
+		res := publish.NewCloudflarePublisher("token")
+		res.VerifSetAPI(*u, 0)
+		rs := res.PublishECH(ctx, targets, pubCfg["C2"])
+		if len(rs) != len(targets) {
+			return fmt.Sprintf("PublishECH with an ended context: %d results for %d targets", len(rs), len(targets))
+		}
+		for i, r := range rs {
+			if r.Code == publish.StatusUpdated || r.Code == publish.StatusNoChange {
+				return fmt.Sprintf("PublishECH with an ended context: target %d reported as %v", i+1, codes[r.Code])
+			}
+		}
+		f.mu.Lock()
+		np := len(f.patches)
+		f.mu.Unlock()
+		if np != 0 {
+			return "PublishECH with an ended context wrote to the zone"
 		}
 	}
 	return ""
